@@ -436,6 +436,12 @@ func emptyApplies(src, kind string) bool {
 		return true
 	case "flag", "pflag":
 		return kind == "set"
+	case "env":
+		// a variable that is present with the empty value sets a collection leaf to the empty collection
+		switch kind {
+		case "strs", "ints", "nstrs", "lnamed", "smap", "nmap", "mnamed", "knamed", "set":
+			return true
+		}
 	}
 	return false
 }
@@ -636,6 +642,9 @@ func (r *srcRun) runEnv() {
 		}
 		if l.Pat == "primary" || l.Pat == "both" || l.Pat == "bothempty" || l.Pat == "over" {
 			set(prim, text)
+		}
+		if l.Pat == "empty" && emptyApplies("env", l.Kind) && r.c.Garbage == "" {
+			set(prim, "")
 		}
 		if l.Pat == "alias" || l.Pat == "both" || l.Pat == "bothempty" {
 			set(envName(l.EnvAlias, r.c.Prefix), text)
